@@ -18,6 +18,9 @@ def _calls(n) -> List[ast.Call]:
 
 def run(chk: Check) -> None:
     prog = chk.prog
+    # the end-of-run validation of the outputs goes through the same loop over the declared ports as the inputs do
+    from .common import every_declared_port_validated
+    every_declared_port_validated(chk, 'PROV-downgrade')
     out = prog.func('processes.Process.out')
     cfg = cfg_of(out)
     ff = chk.ctx.facts.analyse(out)
